@@ -346,6 +346,46 @@ class Interp:
                             return True
         return False
 
+    def _store(self, st, t, v, val, s):
+        """effect of storing the already evaluated value v (expression val) into target t"""
+        M, I, J = self.M, self.k.I, self.k.J
+        if isinstance(t, ast.Name):
+            if isinstance(val, ast.Constant) and isinstance(val.value, bool):
+                st.flags[t.id] = val.value
+                st.env[t.id] = ('CONST', val.value)
+            else:
+                st.flags.pop(t.id, None)
+                st.env[t.id] = v
+        elif isinstance(t, ast.Subscript) and isinstance(t.value, ast.Name):
+            b = t.value.id
+            if b in (I, J) and I is not None:
+                if not isinstance(t.slice, ast.Name):
+                    raise Unsupported('%s: edge-list store with non-name index %s' % (self.fn.qualname, norm(t)))
+                sl = self.slot_of(st, t.slice.id)
+                ij = list(self.ensure_slot(st, sl))
+                if v[0] != 'node':
+                    raise Unsupported('%s: edge-list slot receives a non-node value %s' % (self.fn.qualname, norm(s)))
+                ij[0 if b == I else 1] = v[1]
+                st.slots[sl] = tuple(ij)
+                st.trace.append(norm(s))
+            elif b == M:
+                if not _is_cell(t, M):
+                    raise Unsupported('%s: matrix store %s is not a single cell' % (self.fn.qualname, norm(t)))
+                x, y = (self.ev(st, z) for z in t.slice.elts)
+                if x[0] != 'node' or y[0] != 'node':
+                    raise Unsupported('%s: cell index of %s is not a node symbol' % (self.fn.qualname, norm(t)))
+                cell = (x[1], y[1])
+                self.cell_content(st, cell)
+                if v[0] == 'CONST':
+                    v2 = ('VAL', ('const', v[1]))
+                elif v == EMPTY or v[0] in ('VAL', 'UNK'):
+                    v2 = v
+                else:
+                    raise Unsupported('%s: value stored in %s is not a cell value/constant: %s' % (self.fn.qualname, norm(t), norm(val)))
+                st.cells[cell] = v2
+                st.trace.append(norm(s))
+            # other arrays (P, PN): no effect on tracked state
+
     def stmt(self, s, st):
         st = st.copy()
         M, I, J = self.M, self.k.I, self.k.J
@@ -385,46 +425,25 @@ class Interp:
                     st.env[nm] = ('slot', sym)
                     return [st]
             for t in s.targets:
-                if isinstance(t, ast.Name):
-                    if isinstance(val, ast.Constant) and isinstance(val.value, bool):
-                        st.flags[t.id] = val.value
-                        st.env[t.id] = ('CONST', val.value)
+                if isinstance(t, (ast.Tuple, ast.List)):
+                    if isinstance(val, (ast.Tuple, ast.List)) and len(val.elts) == len(t.elts) \
+                            and not any(isinstance(e, ast.Starred) for e in list(t.elts) + list(val.elts)):
+                        # parallel assignment: every right-hand side is read before any store happens
+                        vs = [self.ev(st, e) for e in val.elts]
+                        for tt, vv, ve in zip(t.elts, vs, val.elts):
+                            self._store(st, tt, vv, ve, s)
                     else:
-                        st.flags.pop(t.id, None)
-                        st.env[t.id] = v
-                elif isinstance(t, ast.Subscript) and isinstance(t.value, ast.Name):
-                    b = t.value.id
-                    if b in (I, J) and I is not None:
-                        if not isinstance(t.slice, ast.Name):
-                            raise Unsupported('%s: edge-list store with non-name index %s' % (self.fn.qualname, norm(t)))
-                        sl = self.slot_of(st, t.slice.id)
-                        ij = list(self.ensure_slot(st, sl))
-                        if v[0] != 'node':
-                            raise Unsupported('%s: edge-list slot receives a non-node value %s' % (self.fn.qualname, norm(s)))
-                        ij[0 if b == I else 1] = v[1]
-                        st.slots[sl] = tuple(ij)
-                        st.trace.append(norm(s))
-                    elif b == M:
-                        if not _is_cell(t, M):
-                            raise Unsupported('%s: matrix store %s is not a single cell' % (self.fn.qualname, norm(t)))
-                        x, y = (self.ev(st, z) for z in t.slice.elts)
-                        if x[0] != 'node' or y[0] != 'node':
-                            raise Unsupported('%s: cell index of %s is not a node symbol' % (self.fn.qualname, norm(t)))
-                        cell = (x[1], y[1])
-                        self.cell_content(st, cell)
-                        if v[0] == 'CONST':
-                            v2 = ('VAL', ('const', v[1]))
-                        elif v == EMPTY or v[0] in ('VAL', 'UNK'):
-                            v2 = v
-                        else:
-                            raise Unsupported('%s: value stored in %s is not a cell value/constant: %s' % (self.fn.qualname, norm(t), norm(val)))
-                        st.cells[cell] = v2
-                        st.trace.append(norm(s))
-                    # other arrays (P, PN): no effect on tracked state
-                elif isinstance(t, ast.Tuple):
-                    for e in t.elts:
-                        if isinstance(e, ast.Name):
-                            st.env[e.id] = ('opaque', e.id)
+                        for e in t.elts:
+                            if isinstance(e, ast.Name):
+                                st.env[e.id] = ('opaque', e.id)
+                            else:
+                                b = e
+                                while isinstance(b, (ast.Subscript, ast.Attribute, ast.Starred)):
+                                    b = b.value
+                                if isinstance(b, ast.Name) and b.id in (M, I, J):
+                                    raise Unsupported('%s: unpacking store into tracked array: %s' % (self.fn.qualname, norm(s)))
+                else:
+                    self._store(st, t, v, val, s)
             return [st]
         if isinstance(s, ast.AugAssign):
             if isinstance(s.target, ast.Name):
